@@ -527,6 +527,15 @@ pub fn law_lax_spider_fusion(s1: &RFF, t1: &RFF, w1: &Vec<usize>, s2: &RFF, t2: 
     let rhs = sa.compose(&sb).unwrap();
     pair(&lhs, &rhs)
 }
+/// C04, lax: dagger reverses composition, with NESTED composites on both sides (so that compose also
+/// sees operands that still carry pending unifications, on the left and on the right):
+/// strict(((f;g);h)†) ≅ strict(h† ; (g† ; f†))
+pub fn law_lax_dagger_comp3(a: &RLf, bb: &RLf, cc: &RLf) -> Sx {
+    let (f, g, h) = (a.to_lf(), bb.to_lf(), cc.to_lf());
+    let lhs = f.compose(&g).unwrap().compose(&h).unwrap().dagger().to_strict();
+    let rhs = h.dagger().compose(&g.dagger().compose(&f.dagger()).unwrap()).unwrap().to_strict();
+    pair(&lhs, &rhs)
+}
 pub fn law_strict_dagger(a: &RLf) -> Sx {
     let x = a.to_lf();
     pair(&x.dagger().to_strict(), &x.to_strict().dagger())
@@ -746,6 +755,13 @@ pub fn run_lawlax(c: &mut Ctx, count: usize) {
                 let args = vec![s.enc(), t.enc(), l(&w), sp2.s.enc(), sp2.t.enc(), l(&sp2.h.w)];
                 let (s1, t1, w1, q) = (s.clone(), t.clone(), w.clone(), sp2.clone());
                 c.emit("law.lax_spider_fusion", args, move || law_lax_spider_fusion(&s1, &t1, &w1, &q.s, &q.t, &q.h.w));
+            }
+            6 if c.rng.chance(1, 2) => {
+                let f = { let p_ = c.rng.chance(1, 2); gen_lf(c, p_, true) };
+                let g = { let p_ = c.rng.chance(1, 2); gen_lf_with_source(c, &f.ty().1, p_) };
+                let h = { let p_ = c.rng.chance(1, 2); gen_lf_with_source(c, &g.ty().1, p_) };
+                let (a, bb, cc) = (f.clone(), g.clone(), h.clone());
+                c.emit("law.lax_dagger_comp3", vec![f.enc(), g.enc(), h.enc()], move || law_lax_dagger_comp3(&a, &bb, &cc));
             }
             6 => {
                 let f = { let p_ = c.rng.chance(1, 2); gen_lf(c, p_, true) };
